@@ -50,6 +50,10 @@ C13_RoundTrip == T.e = "rt" =>
 C06_Scaled == T.e = "scale" =>
   \/ (T.st = "ok" /\ T.equal)
   \/ (TLCSet(2, TLCGet(2) + 1) /\ PrintT("VIOL " \o ToJson([prop |-> "C06", id |-> T.n, line |-> l, what |-> "an exact split scaled by a factor beyond 2^31 / 2^64 does not give the scaled shares"])))
+\* ... and whatever the shares are, every posting of the scaled run is a real transfer (C02 beyond TLC's integers)
+C02_ScaledPositive == (T.e = "scale" /\ "positive" \in DOMAIN T) =>
+  \/ T.positive
+  \/ (TLCSet(2, TLCGet(2) + 1) /\ PrintT("VIOL " \o ToJson([prop |-> "C02", id |-> T.n, line |-> l, what |-> "a split of an amount beyond 2^31 / 2^63 yields a zero or negative posting, a posting in another asset or without a real account"])))
 \* generic scaling lift for sends without allotments (every operation is min / max / + / -, hence positively homogeneous):
 \* all numbers of a TLC-validated small case multiplied by U give U times the postings and the same outcome class
 Scaled == (T.e = "scale" /\ "prop" \in DOMAIN T) =>
